@@ -97,7 +97,9 @@ META = {
         "(bibliographic front matter: docutils DocInfo, Sphinx MetadataCollector), or a container whose `.children` are returned "
         "(the text nodes of state.inline_text) must be followed on EVERY path to the function's exit by a loop that removes the "
         "system_message descendants found below X (findall/traverse of the subtree, not only direct children) - or every caller "
-        "does so on the returned container; and run_directive clears the captions AND titles below the nodes a directive returns. "
+        "does so on the returned container, or by a call of a sweeping helper (`for E in findall(p)(C): for m in findall(E)(system_message): "
+        "m.parent.remove(m)`, both walks subtree walks) that is given X, or an ancestor X is attached under in that function, together "
+        "with X's class; branches on one once-assigned flag are taken consistently when paths are enumerated; and run_directive clears the captions AND titles below the nodes a directive returns. "
         "Keys name the module and the kind of element, not the function, so that moving the code into a helper keeps the key."
     ),
     "not_decided": (
@@ -3272,6 +3274,130 @@ def _removal_loops(fi: FunctionInfo, root: str) -> list[ast.For]:
     return out
 
 
+def _sweeper_summary(h: FunctionInfo) -> tuple[str, str | int] | None:
+    """A helper that takes the message nodes out of every element of a class below the node it is given:
+    ``for E in findall(<node param>)(<class>): for m in findall(E)(system_message): m.parent.remove(m)``.
+    -> (node parameter, class name or index of the class parameter).  Both walks must be subtree walks (findall / traverse)."""
+    if h.is_lambda:
+        return None
+    params = [p for p in h.params if p not in ("self", "cls")]
+    for lp in h.local_nodes():
+        if not (isinstance(lp, ast.For) and isinstance(lp.target, ast.Name)):
+            continue
+        it = lp.iter
+        while isinstance(it, ast.Call) and isinstance(it.func, ast.Name) and it.func.id in ("list", "tuple", "reversed") and it.args:
+            it = it.args[0]
+        if not (isinstance(it, ast.Call) and len(it.args) == 1):
+            continue
+        f = it.func
+        root = unparse(f.args[0]) if isinstance(f, ast.Call) and f.args and (dotted(f.func) or "").split(".")[-1] == "findall" else (unparse(f.value) if isinstance(f, ast.Attribute) and f.attr in ("findall", "traverse") else None)
+        if root not in params:
+            continue
+        if not any(any(a is lp for a in ancestors(l2)) for l2 in _removal_loops(h, lp.target.id)):
+            continue
+        c = it.args[0]
+        if isinstance(c, ast.Name) and c.id in params:
+            return root, params.index(c.id)
+        d = dotted(c)
+        if d is not None:
+            return root, d.split(".")[-1]
+    return None
+
+
+def _attached_under(fi: FunctionInfo) -> dict[str, set[str]]:
+    """child name -> names of the nodes it is attached under in this function (transitively): ``P += C``, ``P.append(C)``,
+    ``nodes.K(.., C)``, and ``with current_node_context(C, append=True)`` inside the context of P."""
+    up: dict[str, set[str]] = {}
+
+    def ctx_target(w: ast.With) -> ast.expr | None:
+        for item in w.items:
+            c = item.context_expr
+            if isinstance(c, ast.Call) and isinstance(c.func, ast.Attribute) and c.func.attr == "current_node_context" and c.args:
+                return c.args[0]
+        return None
+
+    def current_node_at(n: ast.AST) -> str | None:
+        for a in ancestors(n):
+            if isinstance(a, ast.With):
+                tgt = ctx_target(a)
+                if isinstance(tgt, ast.Name):
+                    return tgt.id
+        return None
+
+    def parent_name(e: ast.expr, at: ast.AST) -> str | None:
+        if isinstance(e, ast.Name):
+            return e.id
+        if unparse(e) == "self.current_node":
+            return current_node_at(at)
+        return None
+
+    def add(c: ast.expr, p: str | None) -> None:
+        names = [c] if isinstance(c, ast.Name) else ([x.value if isinstance(x, ast.Starred) else x for x in c.elts] if isinstance(c, (ast.List, ast.Tuple)) else [])
+        for x in names:
+            if isinstance(x, (ast.List, ast.Tuple)):
+                add(x, p)
+            elif isinstance(x, ast.Name) and p and p != x.id:
+                up.setdefault(x.id, set()).add(p)
+
+    for n in fi.local_nodes():
+        if isinstance(n, ast.AugAssign) and isinstance(n.op, ast.Add):
+            add(n.value, parent_name(n.target, n))
+        elif isinstance(n, ast.Call) and isinstance(n.func, ast.Attribute) and n.func.attr in ("append", "extend", "insert") and n.args:
+            add(n.args[-1], parent_name(n.func.value, n))
+        elif isinstance(n, ast.Assign) and len(n.targets) == 1 and isinstance(n.targets[0], ast.Name) and isinstance(n.value, ast.Call) and (dotted(n.value.func) or "").startswith("nodes."):
+            for a in n.value.args[1:]:
+                add(a.value if isinstance(a, ast.Starred) else a, n.targets[0].id)
+        elif isinstance(n, ast.With):
+            for item in n.items:
+                c = item.context_expr
+                if isinstance(c, ast.Call) and isinstance(c.func, ast.Attribute) and c.func.attr == "current_node_context" and c.args and isinstance(c.args[0], ast.Name):
+                    if any(k.arg == "append" and is_const(k.value, True) for k in c.keywords) or (len(c.args) > 1 and is_const(c.args[1], True)):
+                        up.setdefault(c.args[0].id, set()).add(current_node_at(n) or "\0current node")
+    changed = True
+    while changed:
+        changed = False
+        for c, ps in list(up.items()):
+            for p in list(ps):
+                for pp in up.get(p, ()):
+                    if pp not in ps and pp != c:
+                        ps.add(pp)
+                        changed = True
+    return up
+
+
+def _dischargers_cover_all_paths(fi: FunctionInfo, start: ast.stmt, dischargers: list[ast.AST]) -> bool:
+    """Every feasible path from ``start`` to the function's exit runs one of the dischargers.  Branches on one and the same
+    once-assigned flag (``if make_terms:`` ... ``if not make_terms:``) are taken consistently."""
+    cfg = get_cfg(fi)
+    dset = set()
+    for d in dischargers:
+        try:
+            dset.add(cfg.stmt_of(d))
+        except Exception:
+            pass
+    if not dset:
+        return False
+    flags: dict[str, list[tuple[ast.If, bool]]] = {}
+    for n in fi.local_nodes():
+        if isinstance(n, ast.If):
+            core, neg = _strip_not(n.test)
+            if isinstance(core, ast.Name):
+                stores = [s for s in fi.local_nodes() if isinstance(s, ast.Name) and s.id == core.id and isinstance(s.ctx, ast.Store)]
+                if len(stores) <= 1 and core.id not in ():
+                    flags.setdefault(core.id, []).append((n, not neg))
+    names = [k for k, v in flags.items() if len(v) > 1][:3]
+    for bits in range(1 << len(names)):
+        blocked = set()
+        for i, nm in enumerate(names):
+            val = bool(bits >> i & 1)
+            for ifst, positive in flags[nm]:
+                holds = val if positive else not val
+                blocked.add(("F" if holds else "T", ifst))
+        if cfg.paths_avoiding(start, "EXIT", lambda x: x in dset or x in blocked):
+            return False
+    return True
+
+
 def _class_of_ctor(ctor: ast.Call | None) -> str | None:
     d = dotted(ctor.func) if ctor is not None else None
     return d.split(".")[-1] if d and d.startswith("nodes.") else None
@@ -3307,9 +3433,30 @@ def r9_collector_read_elements(corpus: Corpus, rep: Report, tier: str):
             k = f"{fi.module.name}|{kind} with inline content"  # (not the function: the code may move into a helper)
             site = fi.module.site(w)
             loops = _removal_loops(fi, name)
-            # every path from the rendering to the end of the function takes the messages out
-            if any(not cfg.paths_avoiding(w, "EXIT", lambda x, lp=lp: x is lp) for lp in loops):
-                rep.ok(R, k, site, "the message nodes are taken out of it after the rendering, on every path")
+            # a sweeping helper that is handed the element, or an ancestor it is attached under, together with its class
+            sweeps = []
+            up = _attached_under(fi)
+            for c in fi.local_nodes():
+                if not isinstance(c, ast.Call) or c.lineno < w.lineno:
+                    continue
+                try:
+                    hs = _resolver_of(corpus)(c, fi)
+                except Exception:
+                    hs = []
+                if len(hs) != 1:
+                    continue
+                summ = _sweeper_summary(hs[0])
+                bound = _bind_call(c, hs[0]) if summ is not None else None
+                if not bound or summ[0] not in bound:
+                    continue
+                hparams = [p for p in hs[0].params if p not in ("self", "cls")]
+                swept = summ[1] if isinstance(summ[1], str) else (dotted(bound.get(hparams[summ[1]])) or "").split(".")[-1]
+                given = bound[summ[0]]
+                if swept == cls and isinstance(given, ast.Name) and (given.id == name or given.id in up.get(name, set())):
+                    sweeps.append(c)
+            # every (feasible) path from the rendering to the end of the function takes the messages out
+            if _dischargers_cover_all_paths(fi, w, list(loops) + sweeps):
+                rep.ok(R, k, site, "the message nodes are taken out of it after the rendering, on every path" + (f" (by {len(sweeps)} call(s) of a sweeping helper)" if sweeps else ""))
                 continue
             # or the function hands a container on and every caller takes them out of that
             rets = [r for r in fi.local_nodes() if isinstance(r, ast.Return) and isinstance(r.value, ast.Name)]
@@ -3697,6 +3844,40 @@ def mutants(corpus: Corpus):
             out.append(("c14-weaken-9c54213-titles-not-swept", "the sweep does not select captions and titles by a lambda predicate"))
     else:
         out.append(("c14-revert-9c54213-caption-keeps-warning-nodes", "run_directive has no caption/title sweep"))
+    # 6h. d4491dc: rubric, definition-list term and field name swept by the shared helper (revert per call site + weakenings)
+    hname = next((q for q, h in base.functions.items() if _sweeper_summary(h) is not None and h.cls is not None), None)
+    if hname is None:
+        out.append(("c14-revert-d4491dc", "base.py has no shared helper that sweeps the message nodes out of the elements of a class"))
+    else:
+        hfi = base.functions[hname]
+        short_h = hfi.name
+        for qn, kind in (("DocutilsRenderer.render_heading", "rubric"), ("DocutilsRenderer.render_dl", "term"), ("DocutilsRenderer.render_field_list", "field_name")):
+            f = base.func(qn)
+            st = find_node(f, lambda n: isinstance(n, ast.Expr) and isinstance(n.value, ast.Call) and isinstance(n.value.func, ast.Attribute) and n.value.func.attr == short_h and len(n.value.args) == 2 and (dotted(n.value.args[1]) or "").split(".")[-1] == kind)
+            if st is None:
+                out.append((f"c14-revert-d4491dc-{kind}-keeps-warning-nodes", f"{qn} does not call {short_h}(<node>, nodes.{kind})"))
+                continue
+            out.append(Mutant(f"c14-revert-d4491dc-{kind}-keeps-warning-nodes", "C14.R9", base.rel, splice(base.src, st, "pass"), expect=f"{kind} with inline content"))
+            gi = parent(st)
+            if kind == "term" and isinstance(gi, ast.If) and isinstance(gi.test, ast.UnaryOp) and isinstance(gi.test.op, ast.Not):
+                out.append(Mutant("c14-weaken-d4491dc-term-sweep-under-the-wrong-flag", "C14.R9", base.rel, splice(base.src, gi.test, unparse(gi.test.operand)), expect="term with inline content"))
+        inner = [l2 for lp in hfi.local_nodes() if isinstance(lp, ast.For) and isinstance(lp.target, ast.Name) for l2 in _removal_loops(hfi, lp.target.id) if any(a is lp for a in ancestors(l2))]
+        if inner:
+            l2 = inner[0]
+            outer = next(a for a in ancestors(l2) if isinstance(a, ast.For))
+            it2 = l2.iter
+            while isinstance(it2, ast.Call) and isinstance(it2.func, ast.Name) and it2.func.id in ("list", "tuple", "reversed") and it2.args:
+                it2 = it2.args[0]
+            out.append(Mutant("c14-weaken-d4491dc-helper-sweeps-direct-children-only", "C14.R9", base.rel, splice(base.src, it2, f"[c_ for c_ in {outer.target.id}.children if isinstance(c_, nodes.system_message)]"), expect="rubric with inline content"))
+            it1 = outer.iter
+            while isinstance(it1, ast.Call) and isinstance(it1.func, ast.Name) and it1.func.id in ("list", "tuple", "reversed") and it1.args:
+                it1 = it1.args[0]
+            summ = _sweeper_summary(hfi)
+            cparam = [p for p in hfi.params if p not in ("self", "cls")][summ[1]] if summ and isinstance(summ[1], int) else None
+            if cparam is not None:
+                out.append(Mutant("c14-weaken-d4491dc-helper-finds-direct-child-elements-only", "C14.R9", base.rel, splice(base.src, it1, f"[e_ for e_ in [{summ[0]}, *{summ[0]}.children] if isinstance(e_, {cparam})]"), expect="term with inline content"))
+        else:
+            out.append(("c14-weaken-d4491dc-helper-sweeps-direct-children-only", f"{short_h} has no nested removal loop"))
     # 6f. the class of the new known findings, at other sites
     f = base.func("DocutilsRenderer.render_heading") if "DocutilsRenderer.render_heading" in base.functions else None
     cu = find_node(base.func("DocutilsRenderer.generate_heading_target"), lambda n: isinstance(n, ast.Call) and dotted(n.func) == "clean_astext") if "DocutilsRenderer.generate_heading_target" in base.functions else None
